@@ -162,6 +162,7 @@ Inductive op :=
 | OSetUnknown (r : pval) (u : list byte)
 | OIsValid (r : pval)
 | ONew (mid : nat)                            (* new(T).ProtoReflect() *)
+| ONil (mid : nat)                            (* ProtoReflect of a typed nil pointer, MessageType.Zero: the read-only empty message *)
 (* protoreflect.List methods *)
 | OLLen (r : pval)
 | OLGet (r : pval) (i : Z)
@@ -234,10 +235,14 @@ Section Step.
 
   (* the value Range passes for a populated field: like Get, but containers are always attached *)
   Definition range_field (o : obj) (own : option nat) (f : nat) (fd : field) : pval :=
-    match nth_error (o_cells o) f, own with
-    | Some (CList _), Some id => PList (f_ty fd) (RField id f)
-    | Some (CMap _), Some id => match f_shape fd with MapOf kk => PMap kk (f_ty fd) (RField id f) | _ => PInvalid end
-    | _, _ => get_field o own f fd
+    match f_shape fd with
+    | Member _ => get_field o own f fd
+    | _ =>
+      match nth_error (o_cells o) f, own with
+      | Some (CList _), Some id => PList (f_ty fd) (RField id f)
+      | Some (CMap _), Some id => match f_shape fd with MapOf kk => PMap kk (f_ty fd) (RField id f) | _ => PInvalid end
+      | _, _ => get_field o own f fd
+      end
     end.
 
   Definition fields_of (mid : nat) : list field :=
@@ -254,6 +259,7 @@ Section Step.
   Definition step (h : heap) (o : op) : heap * pval :=
     match o with
     | ONew mid => let (h', id) := halloc h (HObj (new_obj sch mid)) in (h', PMsg mid (Some id))
+    | ONil mid => (h, PMsg mid None)
 
     | OHas (PMsg mid p) f =>
       match field_of mid f, recv_obj h mid p with
@@ -326,7 +332,9 @@ Section Step.
         match f_shape fd with
         | Member j =>
           match pval_to_elem (f_ty fd) v with
-          | Some (EPtr None) => (h, PPanic)                       (* Set of an invalid message panics *)
+          (* no validity guard in the oneof branch of set.go: an invalid (nil) message is stored as a
+             wrapper holding nil (Has = true, Get = invalid message); the two references disagree
+             here (struct-based: accepts, dynamicpb: panics), so the contract is unspecified *)
           | Some e => (hset h id (HObj (set_oneof ob j (Some (f, e)))), PUnit)
           | None => (h, PPanic)
           end
@@ -378,7 +386,13 @@ Section Step.
         | Member j, TMsg m =>
           match nth j (o_oneofs ob) None with
           | Some (f', EPtr q) =>
-            if Nat.eqb f' f then (h, PMsg m q)
+            if Nat.eqb f' f then
+              match q with
+              | Some _ => (h, PMsg m q)
+              | None =>                                       (* the wrapper holds a nil message: allocated in place *)
+                let (h1, q') := halloc h (HObj (new_obj sch m)) in
+                (hset h1 id (HObj (set_oneof ob j (Some (f, EPtr (Some q'))))), PMsg m (Some q'))
+              end
             else let (h1, q') := halloc h (HObj (new_obj sch m)) in
                  (hset h1 id (HObj (set_oneof ob j (Some (f, EPtr (Some q'))))), PMsg m (Some q'))
           | _ => let (h1, q') := halloc h (HObj (new_obj sch m)) in
@@ -432,28 +446,40 @@ Section Step.
     (* ---- maps ---- *)
     | OMLen (PMap _ _ r) => (h, PScalar (VInt (Z.of_nat (match read_map h r with Some m => olen m | None => 0%nat end))))
     | OMHas (PMap kk _ r) k =>
-      if wt_scalar kk k then
-        (h, PBool (match read_map h r with Some m => match massoc (olist m) k with Some _ => true | None => false end | None => false end))
-      else (h, PPanic)
+      match r with
+      | RNil => (h, PBool false)                                  (* `if x.m == nil` comes before the key is unwrapped *)
+      | _ =>
+        if wt_scalar kk k then
+          (h, PBool (match read_map h r with Some m => match massoc (olist m) k with Some _ => true | None => false end | None => false end))
+        else (h, PPanic)
+      end
     | OMGet (PMap kk t r) k =>
-      if wt_scalar kk k then
-        (h, match read_map h r with
-            | Some m => match massoc (olist m) k with Some e => elem_to_pval t e | None => PInvalid end
-            | None => PInvalid
-            end)
-      else (h, PPanic)
+      match r with
+      | RNil => (h, PInvalid)
+      | _ =>
+        if wt_scalar kk k then
+          (h, match read_map h r with
+              | Some m => match massoc (olist m) k with Some e => elem_to_pval t e | None => PInvalid end
+              | None => PInvalid
+              end)
+        else (h, PPanic)
+      end
     | OMSet (PMap kk t r) k v =>
       match read_map h r, pval_to_elem t v with
       | Some (Some m), Some e => if wt_scalar kk k then (write_map h r (Some (mput m k e)), PUnit) else (h, PPanic)
       | _, _ => (h, PPanic)                                       (* nil view, nil map, or wrong type *)
       end
     | OMClear (PMap kk _ r) k =>
-      if wt_scalar kk k then
-        match read_map h r with
-        | Some (Some m) => (write_map h r (Some (mdel m k)), PUnit)
-        | _ => (h, PUnit)                                         (* delete on a nil map is a no-op *)
-        end
-      else (h, PPanic)
+      match r with
+      | RNil => (h, PUnit)
+      | _ =>
+        if wt_scalar kk k then
+          match read_map h r with
+          | Some (Some m) => (write_map h r (Some (mdel m k)), PUnit)
+          | _ => (h, PUnit)                                       (* delete on a nil map is a no-op *)
+          end
+        else (h, PPanic)
+      end
     | OMMutable (PMap kk t r) k =>
       match t, read_map h r with
       | TMsg mm, Some (Some m) =>
@@ -521,6 +547,77 @@ Section Step.
                     (combine (seq 0 (length (o_cells o))) (o_cells o)))
                (olist (o_unk o))
         end
+      end
+    end.
+
+  (* ---- loading a message value (the codec's [val]) into the heap: the struct the harness builds with
+     package reflect before a history starts (HISTV case lines). Nil pointers, nil slices / maps and oneof
+     wrappers holding nil are kept. The object is allocated before its children, so the root of a load
+     into the empty heap is object 0. ------------------------------------------------------------------ *)
+  Definition load_elem (ld : heap -> nat -> val -> heap * option nat) (h : heap) (t : ftype) (v : val) : heap * elem :=
+    match t with
+    | TScalar _ => (h, EScalar v)
+    | TMsg m => match v with
+                | VNil => (h, EPtr None)
+                | _ => let (h', p) := ld h m v in (h', EPtr p)
+                end
+    end.
+  Fixpoint load_list (ld : heap -> nat -> val -> heap * option nat) (h : heap) (t : ftype) (l : list val) : heap * list elem :=
+    match l with
+    | [] => (h, [])
+    | x :: tl => let (h1, e) := load_elem ld h t x in
+                 let (h2, es) := load_list ld h1 t tl in (h2, e :: es)
+    end.
+  Fixpoint load_map (ld : heap -> nat -> val -> heap * option nat) (h : heap) (t : ftype) (l : list (val * val)) : heap * list (val * elem) :=
+    match l with
+    | [] => (h, [])
+    | (k, x) :: tl => let (h1, e) := load_elem ld h t x in
+                      let (h2, es) := load_map ld h1 t tl in (h2, (k, e) :: es)
+    end.
+  Fixpoint load_slots (ld : heap -> nat -> val -> heap * option nat) (h : heap) (fs : list field) (ss : list val) (i : nat)
+           (ones : list (option (nat * elem))) : heap * list cell * list (option (nat * elem)) :=
+    match fs, ss with
+    | fd :: ft, s :: st =>
+      let '(h1, c, ones1) :=
+        match f_shape fd with
+        | Singular =>
+          match f_ty fd with
+          | TScalar _ => (h, CScalar s, ones)
+          | TMsg m => match s with
+                      | VNil => (h, CMsg None, ones)
+                      | _ => let (h', p) := ld h m s in (h', CMsg p, ones)
+                      end
+          end
+        | Rep _ => match s with
+                   | VList l => let (h', es) := load_list ld h (f_ty fd) l in (h', CList (Some es), ones)
+                   | _ => (h, CList None, ones)
+                   end
+        | MapOf _ => match s with
+                     | VMap kvs => let (h', m) := load_map ld h (f_ty fd) kvs in (h', CMap (Some m), ones)
+                     | _ => (h, CMap None, ones)
+                     end
+        | Member j => match s with
+                      | VSome p => let (h', e) := load_elem ld h (f_ty fd) p in (h', CMember, set_nth ones j (Some (i, e)))
+                      | _ => (h, CMember, ones)
+                      end
+        end in
+      let '(h2, cs, ones2) := load_slots ld h1 ft st (S i) ones1 in
+      (h2, c :: cs, ones2)
+    | _, _ => (h, [], ones)
+    end.
+  Fixpoint load (fuel : nat) (h : heap) (mid : nat) (v : val) {struct fuel} : heap * option nat :=
+    match fuel with
+    | O => (h, None)
+    | S fu =>
+      match v with
+      | VMsg slots unk =>
+        let id := length h in
+        let h0 := h ++ [HObj (new_obj sch mid)] in
+        let '(h1, cells, ones) :=
+          load_slots (load fu) h0 (fields_of mid) slots 0
+                     (repeat None (match get_msg sch mid with Some md => m_oneofs md | None => 0%nat end)) in
+        (hset h1 id (HObj (mkObj mid cells ones (match unk with [] => None | _ => Some unk end))), Some id)
+      | _ => (h, None)
       end
     end.
 End Step.
